@@ -125,11 +125,19 @@ where
         );
 
         // Get the log ids which are associated with this topic query.
-        let logs = self
-            .store
-            .resolve(&self.topic)
-            .await
-            .map_err(|err| TopicLogSyncError::TopicStore(err.to_string()))?;
+        let logs = match self.store.resolve(&self.topic).await {
+            Ok(logs) => logs,
+            Err(err) => {
+                // The session ends here, make sure this is observable through a final event.
+                let err = TopicLogSyncError::TopicStore(err.to_string());
+                self.event_tx
+                    .send(TopicLogSyncEvent::Failed {
+                        error: err.to_string(),
+                    })
+                    .map_err(|_| TopicLogSyncChannelError::EventSend)?;
+                return Err(err);
+            }
+        };
 
         if enabled!(Level::DEBUG) {
             let display_logs: BTreeMap<String, usize> =
@@ -316,9 +324,14 @@ where
             }
         };
 
-        sink.close()
-            .await
-            .map_err(|err| TopicLogSyncChannelError::MessageSink(format!("{err:?}")))?;
+        // A failure while closing the sink is an error of this session (if nothing failed before)
+        // and gets reported with the final event like any other.
+        let result = match sink.close().await {
+            Ok(_) => result,
+            Err(err) => result.and(Err(
+                TopicLogSyncChannelError::MessageSink(format!("{err:?}")).into()
+            )),
+        };
 
         let final_event = match result.as_ref() {
             Ok(_) => {
